@@ -30,10 +30,12 @@ type zzValidator struct {
 	accept   bool
 	calledBy string // name of the first authority of the config it was given
 	calls    int
+	image    string // the image it was asked to check, fully qualified
 }
 
-func (v *zzValidator) Validate(_ context.Context, _ name.Reference, c *v1beta1.ImageVerification, _ ...string) error {
+func (v *zzValidator) Validate(_ context.Context, ref name.Reference, c *v1beta1.ImageVerification, _ ...string) error {
 	v.calls++
+	v.image = ref.Name()
 	if c != nil && c.Cosign != nil && len(c.Cosign.Authorities) > 0 {
 		v.calledBy = c.Cosign.Authorities[0].Name
 	}
@@ -52,7 +54,7 @@ const zzImage = "xpkg.example.org/org/pkg:v1.0.0"
 // the matching, over ImageConfigs with symbolic prefixes.
 //
 //gosym:harness
-//gosym:cover verified skipped rejected inactive two-matching already-verified
+//gosym:cover verified skipped rejected inactive two-matching already-verified default-registry
 func HarnessC15Signature() {
 	s := kube.New()
 	s.Register(&v1.ProviderRevision{}, &v1.ProviderRevisionList{}, "pkg.crossplane.io", "ProviderRevision")
@@ -74,7 +76,13 @@ func HarnessC15Signature() {
 	}
 
 	pr := &v1.ProviderRevision{ObjectMeta: metav1.ObjectMeta{Name: "rev"}}
-	pr.Spec.Package = zzImage
+	// the source may leave the registry host out: the default registry completes it
+	src := zzImage
+	if zz.Bool("source.withoutRegistryHost") {
+		zz.Cover("default-registry")
+		src = "org/pkg:v1.0.0"
+	}
+	pr.Spec.Package = src
 	active := zz.Bool("revision.active")
 	pr.Spec.DesiredState = v1.PackageRevisionInactive
 	if active {
@@ -120,7 +128,7 @@ func HarnessC15Signature() {
 	matches := make([]bool, n)
 	anyMatch := false
 	for i := 0; i < n; i++ {
-		matches[i] = zz.And(verifies[i], zz.HasPrefix(zzImage, prefix[i]))
+		matches[i] = zz.And(verifies[i], zz.HasPrefix(src, prefix[i]))
 		// an empty prefix never selects a config (its length is not above zero)
 		matches[i] = zz.And(matches[i], prefix[i] != "")
 		anyMatch = zz.Or(anyMatch, matches[i])
@@ -132,6 +140,8 @@ func HarnessC15Signature() {
 	}
 	zz.Cover("verified")
 	zz.Assert("verified-only-if-the-validator-accepted", val.accept)
+	// ... and what it accepted is the image the revision controller installs
+	zz.Assert("verified-image-is-the-image-that-is-installed", val.image == zzImage)
 	for i := 0; i < n; i++ {
 		if val.calledBy == "cfg"+string(rune('0'+i)) {
 			zz.Assert("validated-under-a-matching-config", matches[i])
